@@ -979,8 +979,6 @@ def install(m):
     def _deref(m, a, c, rt):
         p = a[0]
         sb = c.self_base
-        if sb in m.lazy_inits and c.method == 'deref':
-            return lazy_static_get(m, sb)
         if isinstance(p, Ptr) and p.meta is not None:
             # &str / &[T]: as_bytes, as_ref ...
             if c.method == 'as_bytes':
@@ -1043,7 +1041,13 @@ def install(m):
 
     @reg('Lazy::get')
     def _lazy_get(m, a, c, rt):
-        raise Unsupported('Lazy::get reached directly')
+        init = a[1]
+        key = 'lazy:' + init.path
+        cell = m.static_cells.get(key)
+        if cell is None:
+            cell = Cell(m.call_value(init, []))
+            m.static_cells[key] = cell
+        return Ptr(cell, ())
 
     # ---------------------------------------------------------------- integers / chars / bytes
     def ascii_class(name):
